@@ -25,6 +25,9 @@ var (
 	fSamples = flag.Int("samples", 2, "number of runs for which the decoded scenario is kept")
 	fTrace   = flag.Bool("trace", false, "include the event trace in the output")
 	fList    = flag.Bool("list", false, "list suites")
+	fMin     = flag.Bool("minimise", false, "with -replay: minimise the choice list in process and print the minimised replay file")
+	fMinN    = flag.Int("mintests", 20000, "maximum number of candidate executions of the minimiser")
+	fMinT    = flag.Duration("minbudget", 60*time.Second, "wall-clock budget of the minimiser")
 )
 
 // seedFor derives the per-run seed from the base seed, the suite and the run index.
@@ -124,6 +127,11 @@ func TestWorker(t *testing.T) {
 		tier := rf.Tier
 		if tier == "" {
 			tier = *fTier
+		}
+		if *fMin {
+			got, tests, ok := minimiseChoices(t, s, &rf, *fMinN, *fMinT)
+			enc.Encode(map[string]interface{}{"ok": ok, "tests": tests, "choices": got})
+			return
 		}
 		ch := simrt.NewReplayChooser(rf.Choices)
 		start := time.Now()
